@@ -394,7 +394,7 @@ where
         if pos == RecordPos::Qual {
             // no line ending at end of last record
             self.buf_pos.pos.1 = self.get_buf().len();
-            self.validate()?;
+            self.validate_record(true)?;
             return Ok(true);
         }
 
@@ -478,6 +478,12 @@ where
     // should only be called on a complete BufferPosition
     #[inline(always)] // has performance impact and would not be inlined otherwise
     fn validate(&mut self) -> Result<(), Error> {
+        self.validate_record(false)
+    }
+
+    // `at_end`: the quality line is terminated by the end of the input
+    #[inline(always)]
+    fn validate_record(&mut self, at_end: bool) -> Result<(), Error> {
         let start_byte = self.get_buf()[self.buf_pos.pos.0];
         if start_byte != b'@' {
             self.state = State::Finished;
@@ -498,13 +504,19 @@ where
 
         let qual_len = self.buf_pos.pos.1 - self.buf_pos.qual + 1;
         let seq_len = self.buf_pos.sep - self.buf_pos.seq;
-        if seq_len != qual_len {
-            self.state = State::Finished;
-            return Err(Error::UnequalLengths {
-                seq: self.buf_pos.seq(self.get_buf()).len(),
-                qual: self.buf_pos.qual(self.get_buf()).len(),
-                pos: self.get_error_pos(0, true),
-            });
+        if seq_len != qual_len || at_end {
+            // The line lengths include the terminators, which may differ (no terminator
+            // at the end of the input) -> compare the actual lengths
+            let seq = self.buf_pos.seq(self.get_buf()).len();
+            let qual = self.buf_pos.qual(self.get_buf()).len();
+            if seq != qual {
+                self.state = State::Finished;
+                return Err(Error::UnequalLengths {
+                    seq,
+                    qual,
+                    pos: self.get_error_pos(0, true),
+                });
+            }
         }
         Ok(())
     }
